@@ -428,13 +428,15 @@ example : okLs exLoopProg = true ∧ ∃ code t gs',
      code.any (fun i => match i with | .cont 1 1 => true | _ => false)) = true :=
   ⟨by decide, exists_of_compiledSat (by decide +kernel)⟩
 
-/-- … and by a tail-recursive function: its template is compiled to 19 instructions that contain
-the tail sequence with TWO `removeScope` (the `let`'s scope and the function scope; two more close
-the `let` and the function on the other path) and `goto 0`. -/
+/-- … and by a tail-recursive function: its template is compiled to 21 instructions that contain
+the guard (fix C09-02; it skips 7 instructions: itself, the two operands, `prepareCall`, two
+`removeScope`, `goto`), the tail sequence with TWO `removeScope` (the `let`'s scope and the
+function scope; two more close the `let` and the function on the other path) and `goto 0`. -/
 example : okLs exTailProg = true ∧ ∃ code t gs',
     compileBegin (fun _ => false) {} exTailProg { fns := [] } = Except.ok ((code, t), gs') ∧
-    (gs'.fns.map (fun f => f.code.length) == [19] &&
+    (gs'.fns.map (fun f => f.code.length) == [21] &&
      gs'.fns.all (fun f => f.code.any (fun i => match i with | .goto 0 => true | _ => false)) &&
+     gs'.fns.all (fun f => f.code.any (fun i => match i with | .tailGuard "f" 7 => true | _ => false)) &&
      gs'.fns.map (fun f => (f.code.filter (fun i => match i with | .removeScope => true | _ => false)).length) == [4]) = true :=
   ⟨by decide, exists_of_compiledSat (by decide +kernel)⟩
 
